@@ -31,7 +31,7 @@ def main():
     head = "\n".join(demo_txt.splitlines()[:25])
     m = re.search(r"(src/[\w/]+\.rs)", head)
     appended = None
-    if m and re.search(r"append", head, re.I) and not re.search(r"WHERE IT GOES:\s*`?tests/|goes (in|to) `?tests/|^// *tests/\w+\.rs", head, re.I | re.M):
+    if m and re.search(r"^\s*//\s*APPEND\b|append(ed)? to `?src/|to be appended", head, re.I | re.M) and not re.search(r"WHERE IT GOES:\s*`?tests/|goes (in|to) `?tests/|^// *tests/\w+\.rs", head, re.I | re.M):
         appended = m.group(1)
         test_cmd = None
     name = f"seed_demo_{label.lower()}"
